@@ -111,6 +111,8 @@ pub struct SzxOpts {
     pub ay_flags: Option<u8>,
     /// dwCyclesStart of the Z80R chunk: T-states since the start of the frame at which the snapshot was taken
     pub cycles: u32,
+    /// ZXSTZF_FSET: the last instruction before the snapshot changed the flags (the Q latch holds F)
+    pub fset: bool,
 }
 
 impl Default for SzxOpts {
@@ -127,6 +129,7 @@ impl Default for SzxOpts {
             fe: None,
             ay_flags: None,
             cycles: 0,
+            fset: false,
         }
     }
 }
@@ -148,7 +151,7 @@ pub fn szx(d: &MachineDesc, o: &SzxOpts) -> Vec<u8> {
     z.extend([c.i, c.r, c.iff1 as u8, c.iff2 as u8, c.im]);
     z.extend(o.cycles.to_le_bytes()); // dwCyclesStart
     z.push(0); // chHoldIntReqCycles
-    z.push((o.eilast as u8) | ((o.halted as u8) << 1));
+    z.push((o.eilast as u8) | ((o.halted as u8) << 1) | ((o.fset as u8) << 2));
     z.extend(0u16.to_le_bytes()); // memptr
     chunks.push(chunk(b"Z80R", &z));
     chunks.push(chunk(b"SPCR", &[d.border, d.latch, 0, o.fe.unwrap_or(d.border), 0, 0, 0, 0]));
